@@ -151,15 +151,15 @@ def apeItems : Nat → Bytes → Except PyErr Unit
             else apeItems count (rest.drop size)
 
 /-- `data.tag` and `data.items` of `_APEv2Data(fileobj)` once the tag is located (`ApeF.locate f = ok (some L)`):
-the 16 bytes behind the located preamble again, then `fileobj.read(size)` at `data` (a negative size reads to the
-end of the file) -/
+the 16 bytes behind the located preamble again, then `fileobj.read(size)` at `data`, `size` without the 32 bytes of
+the footer (`locate` has refused a tag with a footer whose size field is below 32: `size - 32` is not cut off) -/
 def apeTagData (f : Bytes) (L : ApeF.Loc) : Bytes × Nat :=
   if L.isAtStart then
     let d := readAt f 8 16
     let size := ofLE ((d.drop 4).take 4)
     let items := ofLE ((d.drop 8).take 4)
     let hasFooter := ApeF.isApeAt f size                  -- seek(end - 32); read(8) == "APETAGEX"
-    if hasFooter then (if size < 32 then f.drop 32 else readAt f 32 (size - 32), items)
+    if hasFooter then (readAt f 32 (size - 32), items)
     else (readAt f 32 size, items)
   else
     let ft := L.endd - 32
@@ -167,7 +167,7 @@ def apeTagData (f : Bytes) (L : ApeF.Loc) : Bytes × Nat :=
     let size := ofLE ((d.drop 4).take 4)
     let items := ofLE ((d.drop 8).take 4)
     let data := L.endd - size
-    (if size < 32 then f.drop data else readAt f data (size - 32), items)
+    (readAt f data (size - 32), items)
 
 /-- `try: tags = APEv2(fileobj) except APENoHeaderError: tags = None`; `none` = no tags (no tag found, or an
 empty one) -/
